@@ -540,7 +540,7 @@ RULE_ADDENDA = {
     "C03": "every 4th file case uses a format that refuses sprinkled records; every 16th case is a file + stderr duplicate whose format refuses",
     "C04": "a third of the in-process cases route records to an additional file writer; endings include two concurrent shutdowns; 1 of 8 cases is flush() while 1-4 other threads log; every 16th case: 40 (thorough 120) small loggers whose only two handle clones are dropped by two threads behind a spin barrier, file read while the logger object is alive; ending ConcurrentDropLast in the ordinary cases",
     "C06": "every 16th case is a DST child (history in one pass of the repeated hour vs. the same history a week later, 4 zones, optional file from the skipped hour, listing against the directory); empty discriminant among the name parts",
-    "C07": "background-cleanup cases hold the logging thread back between rename and writer swap; judged only now and then; every 48th case (thorough: half the cases of shards 8-15) is a controlled-schedule configuration (shape prefix sched|, non-trivial iff a step of one thread ran inside the other's rotation / work list)",
+    "C07": "background-cleanup cases hold the logging thread back between rename and writer swap; judged only now and then; every 48th case (thorough: half the cases of shards 8-15) is a controlled-schedule configuration (shape prefix sched|, non-trivial iff a step of one thread ran inside the other's rotation / work list); beyond the DFS cap the seeded schedules take turns in phases of random length (few context switches); a third of the quick configurations has room for three rotations",
     "C08": "reopen_output() with the file in place is one of the operations; recursive logging (a record whose Display argument logs another record through the same logger) is one of the operations",
     "C09": "reopen_output() with the file in place is one of the operations; explicit rotations whose new file cannot be opened (fault at fs point open; the file keeps its start time and name)",
     "C10": "memory buffer as primary output with limits around the line lengths; recursion nesting depth 2-4; every 32nd case is a DST child; a quarter of the file-spec cases plants FIFOs, dangling links and links to FIFOs under the names of old rotated files",
@@ -552,7 +552,7 @@ RULE_ADDENDA = {
     "C16": "per-case equivalent builder call sequences; try_from paths also with rotation + listing; every 32nd case is a DST child; in half of the symlink cases the configured link exists before the logger starts (dangling, or pointing elsewhere)",
     "C17": "a tenth of the strings is long; every 16th string also through the RUST_LOG entry points; blank-part vs empty-part relation for inputs the docs leave open",
     "C18": "every 8th case: primary file/stderr/stdout + an additional file writer, one reopen_output for all, immediate reads of unbuffered files; every 16th case: reopen_output in a loop while 2-4 threads log through rotations; a third of the resets of a non-rotating family keeps the same file specification and only switches rotation on",
-    "C19": "a bystander file writer in every fault history; a third of the cases with the background cleanup thread; partition under cleanup faults and cleanup limits after recovery are judged; real faults: blocked rotation target, rotated name longer than NAME_MAX, controlled failed-open-then-background-cleanup order, RLIMIT_FSIZE; every 10th case: failures of the system calls themselves (strace -e inject=<call>:error=<errno>:when=<n>[..m] on the n-th write/openat/rename/unlink naming the log directory of a child history; the strace log attributes each failure to the operation window announced in the ack file)",
+    "C19": "a bystander file writer in every fault history; a third of the cases with the background cleanup thread; partition under cleanup faults and cleanup limits after recovery are judged; real faults: blocked rotation target, rotated name longer than NAME_MAX, controlled failed-open-then-background-cleanup order, RLIMIT_FSIZE; every 10th case: failures of the system calls themselves (strace -e inject=<call>:error=<errno>:when=<n>[..m] on the n-th write/openat/rename/unlink naming the log directory of a child history; the strace log attributes each failure to the operation window announced in the ack file); the listing of the directory (fs point read_dir) is one of the hook fault points since the listing has an error path (fix 5ed7d12); the syscall-fault histories contain restarts (a logger started on a directory with files, under a fault)",
     "C20": "shards 4-7 and 12-15 run with UTC forced; children configure formats explicitly, through AdaptiveFormat, or not at all",
 }
 for _k, _v in RULE_ADDENDA.items():
